@@ -13,7 +13,7 @@ demos=$(find $S -name '*_test.go')
 place() { # copy demos to their package directories; prints the destinations
   for f in $demos; do
     pkg=$(grep -m1 '^package ' $f | awk '{print $2}')
-    case "$pkg" in ipmi|ipmi_test) d=pkg/ipmi;; dcmi|dcmi_test) d=pkg/dcmi;; transport) d=internal/pkg/transport;; *) d=.;; esac
+    case "$pkg" in ipmi|ipmi_test) d=pkg/ipmi;; dcmi|dcmi_test) d=pkg/dcmi;; transport) d=internal/pkg/transport;; bcd|bcd_test) d=internal/pkg/bcd;; *) d=.;; esac
     cp $f $W/$d/zz_seed_$(basename $f); echo "$d/zz_seed_$(basename $f)"
   done
 }
@@ -38,5 +38,5 @@ if [ $rc_build -eq 0 ] && [ $rc_suite -eq 0 ] && [ $rc_without -eq 0 ] && [ $rc_
   tail -3 /tmp/confirm_without.log > $D/demo_passes_without_change.txt
   echo "CONFIRMED -> $D"
 else
-  echo "NOT CONFIRMED"; tail -5 /tmp/confirm_with.log /tmp/confirm_without.log /tmp/confirm_suite.log
+  echo "NOT CONFIRMED"; tail -n 5 /tmp/confirm_with.log; tail -n 5 /tmp/confirm_without.log; tail -n 5 /tmp/confirm_suite.log
 fi
